@@ -36,6 +36,8 @@ pub enum ExprRef {
     /// the string MathCAT returned from the last successful set_mathml
     Feedback,
     Lit(String),
+    /// expression number `seed` of the seeded generator (sim/src/mml.rs); ids: 0 = no author ids, 1 = some, 2 = all
+    Gen { seed: u64, ids: u8 },
 }
 
 #[derive(Serialize, Deserialize, Clone, Debug, PartialEq)]
